@@ -371,6 +371,8 @@ def search_traces(work, vh, rep, props, jobs, timeout=3300, heap="6g"):
     results = vlib.run_many(one, jobs, workers=min(vlib.NCPU, 12))
     for r in results:
         rep.counters(r.ops)
+        for note in r.notes:
+            rep.counters({"note:" + note: 1})
     for r in results[:2]:
         for i in (2, 3):
             line = vlib.read_line(r.trace, i)
@@ -423,4 +425,41 @@ def c13(work, tier, seed):
     require(rep, ["tree", "search", "qtree", "qsearch"], "C13")
     rep.assumptions = ["windows are built from the neighbours of the real full-window result, decided scores and mate scores of both parities; the true value they are judged against is TLC's",
                        "every interior node of a search is such a call: enumerating root calls over many positions and windows exercises the contract the recursion relies on"]
+    return rep.finish(work)
+
+
+@check("C11")
+def c11(work, tier, seed):
+    rep = Report("C11", tier, seed)
+    vh = vlib.build_harness(work)
+    mc_search(work, rep, tier, ["FullWindowExact"])
+    cf = "hash,morlock,qshash,qsmat"
+    if tier == "quick":
+        jobs = [("c11a%d" % i, ["-mode", "c11", "-seed", seed * 100 + i, "-n", 12, "-depth", 3, "-cfgs", cf, "-limit", 30000]) for i in range(8)]
+        jobs += [("c11m%d" % i, ["-mode", "c11", "-mates", "-seed", seed * 100 + 50 + i, "-n", 6, "-depth", 4, "-cfgs", "hash,morlock", "-limit", 40000]) for i in range(4)]
+    else:
+        jobs = [("c11a%d" % i, ["-mode", "c11", "-heavy", "-seed", seed * 100 + i, "-n", 150, "-depth", 3, "-cfgs", cf, "-limit", 60000]) for i in range(12)]
+        jobs += [("c11m%d" % i, ["-mode", "c11", "-mates", "-seed", seed * 100 + 50 + i, "-n", 50, "-depth", 5, "-cfgs", "hash,morlock,qshash", "-limit", 150000]) for i in range(12)]
+    search_traces(work, vh, rep, ["C11"], jobs)
+    require(rep, ["tree", "search", "note:tree|nodraws=TRUE"], "C11")
+    rep.assumptions = ["evaluations are position-determined (material, hash-derived test evaluator); dumps are of real positions, draws by repetition/fifty-move inside the tree make a dump ineligible only through the reference value (they are part of it)",
+                       "table sizes 32 B (one slot), 64 B, 4 KiB, 1 MiB; scenarios: iterative deepening, same depth twice, mixed depths on one table"]
+    return rep.finish(work)
+
+
+@check("C12")
+def c12(work, tier, seed):
+    rep = Report("C12", tier, seed)
+    vh = vlib.build_harness(work)
+    mc_search(work, rep, tier, ["FullWindowExact"])
+    if tier == "quick":
+        jobs = [("c12a%d" % i, ["-mode", "c12", "-seed", seed * 100 + i, "-n", 2, "-depth", 3, "-cfgs", c, "-limit", 20000, "-polls", 500])
+                for i, c in enumerate(["hash", "morlock", "qshash", "minimax", "sargon", "turochamp", "hash", "qsmat"])]
+    else:
+        jobs = [("c12a%d" % i, ["-mode", "c12", "-heavy", "-seed", seed * 100 + i, "-n", 12, "-depth", 3, "-cfgs", c, "-limit", 60000, "-polls", 4000])
+                for i, c in enumerate(["hash", "morlock", "qshash", "minimax", "sargon", "turochamp", "bernstein", "qsmat", "hash", "morlock", "minimax-material", "qshash"])]
+    search_traces(work, vh, rep, ["C12"], jobs)
+    require(rep, ["tree", "cancel", "dry"], "C12")
+    rep.assumptions = ["cancellation is delivered through a context whose Done() reports cancellation from the n-th call on: every node entry polls it, so 'every instant' = every poll index of the search",
+                       "the board record compares FEN, hash, ply, last move, castled flags and result class (Unknown and Undecided are one class)"]
     return rep.finish(work)
